@@ -263,7 +263,7 @@ def gen(rng, tier):
         if rng.random() < 0.5:
             hist.append({"ev": "check_others"})
     hist.append({"ev": "check_others"})
-    return {"recipe": recipe, "x": x, "targets": [x] + consumers + others, "history": hist}
+    return {"scribble": rng.random() < 0.5, "recipe": recipe, "x": x, "targets": [x] + consumers + others, "history": hist}
 
 
 def shape_of(case, stats):
